@@ -295,7 +295,7 @@ func c15Op(c *WCase, res *WResult) {
 			}
 		case op == "file.read" && err == nil && !bytes.Equal(got, content):
 			bad("wrong-value", "ReadFile returned %d bytes that are not the file's content, with nil error, after %s failed (%s)", len(got), ffs.HitOp, mode)
-		case op == "file.read" && err == nil && !(mode == "short-read" || ffs.HitOp == "Close" || ffs.HitOp == "FStat" || ffs.HitOp == "Stat" || retriedSame(ffs.Events())):
+		case op == "file.read" && err == nil && !(mode == "short-read" || mode == "eof" || mode == "half-eof" || ffs.HitOp == "Close" || ffs.HitOp == "FStat" || ffs.HitOp == "Stat" || retriedSame(ffs.Events())):
 			// a failing size probe is advisory (the content is read to EOF anyway); everything else must surface
 			bad("success-reported", "ReadFile reported success although %s failed (%s)", ffs.HitOp, mode)
 		}
@@ -311,7 +311,7 @@ func c15Op(c *WCase, res *WResult) {
 			value = nil
 			op = strings.TrimSuffix(op, ".empty")
 		} else if strings.HasSuffix(op, ".big") {
-			value = bytes.Repeat([]byte{0xa5, 0x5a, 0x11}, 1700)
+			value = bytes.Repeat([]byte{0xa5, 0x5a, 0x11}, 23400) // > 64 KiB: read and written in more than one step by incremental code
 			op = strings.TrimSuffix(op, ".big")
 		}
 		path := varPath(v.Name, v.GUID.Format())
@@ -407,7 +407,8 @@ func c15Op(c *WCase, res *WResult) {
 				}
 				return
 			}
-			benign := mode == "short-read" || ffs.HitOp == "Close"
+			// an early end of file is judged by the value: correct value or an error
+			benign := mode == "short-read" || ffs.HitOp == "Close" || ((mode == "eof" || mode == "half-eof") && ffs.HitOp == "Read")
 			switch {
 			case err == nil && (!bytes.Equal(got, value) || gotAttrs != 7):
 				bad("wrong-value", "read returned a wrong value (%d bytes, attrs %#x) with nil error after %s failed (%s)", len(got), gotAttrs, ffs.HitOp, mode)
@@ -458,7 +459,7 @@ func checkC15(r *mon.Run) {
 	r.Exhaustive()
 	useFakeEfivarsDir()
 	var ops []string
-	ops = append(ops, "sign.pkcs7", "sign.authenticode", "sign.authenticode.reader", "var.sign", "write.object", "write.legacy", "write.object.append", "write.legacy.append", "write.object.empty", "write.legacy.empty", "write.object.big", "write.legacy.big", "write.object.immutable", "write.signedupdate.fs", "write.signedupdate.signer", "read.object", "read.legacy", "file.write", "file.read")
+	ops = append(ops, "sign.pkcs7", "sign.authenticode", "sign.authenticode.reader", "var.sign", "write.object", "write.legacy", "write.object.append", "write.legacy.append", "write.object.empty", "write.legacy.empty", "write.object.big", "write.legacy.big", "write.object.immutable", "write.signedupdate.fs", "write.signedupdate.signer", "read.object", "read.legacy", "read.object.big", "read.legacy.big", "file.write", "file.read")
 	imgs := c15Images
 	if !r.Thorough() {
 		imgs = []string{"test.pecoff", "signed", "HelloWorld"}
@@ -505,14 +506,15 @@ func checkC15(r *mon.Run) {
 		case op == "file.write":
 			modes = []string{"error", "short", "short-error"}
 		case op == "file.read":
+			// no early-EOF modes: like os.ReadFile the helper reads to the end, wherever that is
 			modes = []string{"error", "short-error", "short-read"}
 		case strings.HasPrefix(op, "read."):
-			modes = []string{"error", "short-error", "short-read"}
+			modes = []string{"error", "short-error", "short-read", "eof", "half-eof"}
 		}
 		for k := 1; k <= o.N; k++ {
 			for _, m := range modes {
 				plans = append(plans, c15Plan{op, m, k, false, 0})
-				if !strings.Contains(op, "reader") && o.N > 1 && m != "short-read" {
+				if !strings.Contains(op, "reader") && o.N > 1 && m != "short-read" && m != "eof" && m != "half-eof" {
 					plans = append(plans, c15Plan{op, m, k, true, 0})
 				}
 				// filesystem operations: the same position failing with each errno (a retry loop,
